@@ -76,6 +76,9 @@ def norm_sibling(fnode):
     return [ast.dump(s) for s in body]
 
 
+from .c03 import is_abstract as c13_is_abstract
+
+
 def run(p, report, tier):
     report.rule("R19.1", "in IndexClassifierWrapper.predict / predict_proba / predict_freq every delegated call on "
                 "self.clf / self.clf_ on every path (speed-up, prefitted fallback, plain) calls the method of the "
@@ -286,6 +289,48 @@ def run(p, report, tier):
         da = DefiniteAssignment(_it(f.node)).run()
         report.add("R19.2", f.qual, "all locals bound before use", f"{f.file}:{f.node.lineno}", not da.reports,
                    detail="; ".join(da.reports), nontrivial=False)
+    # ---- R19.11 the emulated refit is fed the whole stored training multiset
+    report.rule("R19.11", "the refit that emulates partial_fit receives all members of the stored training group "
+                "(indices, labels AND weights): a call self.fit(self.idx_, ...) inside partial_fit forwards self.y_ and "
+                "self.sample_weight_ as well", floor=1)
+    pf = ci.methods.get("partial_fit")
+    if pf is None:
+        raise AnalysisError("IndexClassifierWrapper.partial_fit vanished")
+    nref = 0
+    for c in ast.walk(pf.node):
+        if isinstance(c, ast.Call) and isinstance(c.func, ast.Attribute) and c.func.attr == "fit" \
+                and isinstance(c.func.value, ast.Name) and c.func.value.id == "self":
+            txt = [ast.unparse(a) for a in c.args] + [ast.unparse(k.value) for k in c.keywords if k.arg]
+            if not any(t == "self.idx_" for t in txt):
+                continue
+            nref += 1
+            miss = [m for m in ("self.y_", "self.sample_weight_") if m not in txt]
+            report.add("R19.11", pf.qual, f"refit `{norm_stmt(c, 60)}` forwards the stored labels and weights", f"{pf.file}:{c.lineno}",
+                       not miss, detail="all members forwarded" if not miss else
+                       f"{', '.join(miss)} not forwarded: the refit falls back to the constructor's values, the model is "
+                       f"not the one trained on the stored (sample, label, weight) triples")
+    if nref == 0:
+        raise AnalysisError("IndexClassifierWrapper.partial_fit: emulated refit self.fit(self.idx_, ...) vanished")
+    # ---- R19.10 premise shared with C13: the classifier behind the wrapper refits history-free
+    report.rule("R19.10", "an emulated partial_fit equals a fresh fit only if the wrapped classifier's fit is a function "
+                "of its arguments: for the classifier classes of the package, fit writes no constructor parameter "
+                "(R13.1), reads no fitted attribute it has not stored in the same call (R13.2) and stores an attribute "
+                "on every path if on any (R13.5); shared with C13", floor=20)
+    from ..absint import Interp
+    from . import c05, c13_fit
+    clfs = [ci for ci in p.classes.values() if "/tests/" not in ci.file and ci.file.startswith("skactiveml/classifier/")
+            and p.is_subclass(ci, "SkactivemlClassifier")]
+    for ci in sorted(clfs, key=lambda c: c.name):
+        for mn in ("fit", "partial_fit"):
+            f = p.find_method(ci, mn)
+            if f is None or c13_is_abstract(f):
+                continue
+            it = Interp(p)
+            it.run_entity(ci, f, rounds=2)
+            c05.check_entity(p, report, ci, f, it, r_param="R19.10", r_arr=None, r_est=None)
+    ents = [(ci, f) for (ci, f) in c13_fit.fit_entities(p) if ci in clfs]
+    c13_fit.check_fit_recomputes(p, report, ents, "R19.10")
+    c13_fit.check_store_on_every_path(p, report, ents, rule="R19.10")
     report.assumptions += ["equality with a retrained reference classifier is not decided"]
 
 
